@@ -10,6 +10,8 @@ def c01(tier):
                       params=dict(oversub=1, maxitems=800)))
         runs.append(H("c01_foreach", "asan", 120, "4,4,4,4", timeout_per_case=30, params=dict(maxitems=3000)))
         runs.append(H("c01_foreach", "asan", 60, None, timeout_per_case=30, params=dict(maxitems=3000)))
+        # level-synchronous OBIM variants incl. pushes that are more urgent than the level being executed
+        runs.append(H("c01_foreach", "plain", 160, "4,4,4,4", timeout_per_case=20, params=dict(wl="OBIM_barrier", maxitems=600)))
         # slower timing of the race-detector build opens windows the optimised build hardly ever hits
         runs.append(H("c01_foreach", "tsan", 100, "4,4,4,4", timeout_per_case=90, params=dict(maxitems=600)))
         # worklists driven directly (push / pop-until-empty rounds), ~1 ms per case
@@ -27,6 +29,8 @@ def c01(tier):
                           params=dict(oversub=1, maxitems=1500)))
         runs.append(H("c01_foreach", "tsan", 300, "4,4,4,4", timeout_per_case=60, params=dict(maxitems=1500)))
         runs.append(H("c01_foreach", "tsan", 150, "3,5", timeout_per_case=60, params=dict(maxitems=1500)))
+        for t in (None, "4,4,4,4", "3,5"):
+            runs.append(H("c01_foreach", "plain", 500, t, timeout_per_case=20, params=dict(wl="OBIM_barrier", maxitems=1500)))
         for t in TOPOS_THOROUGH:
             runs.append(H("c01_direct", "plain", 12000, t, timeout_per_case=10))
         for cpus in (2, 4):
